@@ -688,7 +688,7 @@ func (c *Ctx) optSeq(f *ssa.Function, v ssa.Value, d int) []optAlt {
 			for _, p1 := range a {
 				for _, p2 := range b {
 					alt := optAlt{seq: append(append([]string{}, p1.seq...), p2.seq...), empty: p1.empty, onto: p1.onto}
-					if alt.onto == "" && len(p1.seq) > 0 && len(p2.seq) > 0 && !c.P.FreshIn(x.Common().Args[0]) {
+					if alt.onto == "" && len(p1.seq) > 0 && len(p2.seq) > 0 && !c.P.FreshIn(x.Common().Args[0]) && !capLimited(x.Common().Args[0]) {
 						alt.onto = p1.seq[0]
 					}
 					out = append(out, alt)
@@ -1668,4 +1668,14 @@ func errOf(call *ssa.Call) ssa.Value {
 		}
 	}
 	return nil
+}
+
+// capLimited: v is a three-index slice x[:n:n] whose capacity equals its length: appending anything to it always
+// allocates a new backing array, so nothing is written into memory x shares.
+func capLimited(v ssa.Value) bool {
+	sl, ok := core.Strip(v).(*ssa.Slice)
+	if !ok || sl.Max == nil || sl.High == nil {
+		return false
+	}
+	return sl.Max == sl.High || core.Path(sl.Max) == core.Path(sl.High)
 }
